@@ -151,7 +151,7 @@ Proof.
   - destruct (get_data n (data st)) as [x|] eqn:E.
     + apply (getter_inv_weaken st _ [LGot (next_id st) n x] Inv); try reflexivity.
       intros w m y [H|[]]. injection H as _ <- <-. exact E.
-    + apply (getter_inv_weaken st _ [] Inv); try reflexivity. intros w m y [].
+    + apply (getter_inv_weaken st _ [LWait (next_id st) n] Inv); try reflexivity. intros w m y [H|[]]. discriminate.
   - set (top := rev (map (fun w => LTimeout (w_id w) (w_name w)) _)).
     apply (getter_inv_weaken st _ top Inv); try reflexivity.
     intros w m y Hin. unfold top in Hin. apply in_rev, in_map_iff in Hin. destruct Hin as [w' [H _]]. discriminate.
@@ -298,9 +298,9 @@ Proof.
     + apply (snap_inv_top st _ [LGot (next_id st) n x] Inv); try reflexivity; cbn [next_id]; try lia.
       * intros e [<-|[]]. exact I.
       * intros t s y [H|[]]. discriminate.
-    + apply (snap_inv_top st _ [] Inv); try reflexivity; cbn [next_id]; try lia.
-      * intros e [].
-      * intros t s y [].
+    + apply (snap_inv_top st _ [LWait (next_id st) n] Inv); try reflexivity; cbn [next_id]; try lia.
+      * intros e [<-|[]]. exact I.
+      * intros t s y [H|[]]. discriminate.
   - set (top := rev (map (fun w => LTimeout (w_id w) (w_name w)) _)).
     apply (snap_inv_top st _ top Inv); try reflexivity; cbn [next_id]; try lia.
     + intros e Hin. unfold top in Hin. apply in_rev, in_map_iff in Hin. destruct Hin as [w [<- _]]. exact I.
@@ -496,7 +496,8 @@ Proof.
   - destruct (get_data n (data st)) as [x|]; cbn [subs log next_id].
     + apply (once_ok_top (subs st) (log st) (next_id st) [LGot (next_id st) n x]); [exact H| |lia].
       intros c w e [<-|[]]. reflexivity.
-    + intros c w. specialize (H c w). lia.
+    + apply (once_ok_top (subs st) (log st) (next_id st) [LWait (next_id st) n]); [exact H| |lia].
+      intros c w e [<-|[]]. reflexivity.
   - cbn [subs log next_id]. apply (once_ok_top (subs st) (log st) (next_id st)); [exact H| |lia].
     intros c w e Hin. apply in_rev, in_map_iff in Hin. destruct Hin as [w' [<- _]]. reflexivity.
 Qed.
